@@ -55,7 +55,7 @@ def kani_env(rustflags=None, extra=None):
     return env
 
 
-def codegen(crate_dir, zflags=(), cargo_args=(), rustflags=None, harness_filters=None, timeout=1800):
+def codegen(crate_dir, zflags=(), cargo_args=(), rustflags=None, harness_filters=None, timeout=1800, exact=False):
     """Runs kani-compiler for all (or the filtered) harnesses. Returns (ok, log, [harness metadata])."""
     t0 = time.time()
     cmd = ["cargo", "kani", "--only-codegen"]
@@ -64,6 +64,8 @@ def codegen(crate_dir, zflags=(), cargo_args=(), rustflags=None, harness_filters
     cmd += list(cargo_args)
     for h in harness_filters or []:
         cmd += ["--harness", h]
+    if exact and harness_filters:
+        cmd += ["--exact"]
     rc, out, secs, to = run(cmd, cwd=crate_dir, env=kani_env(rustflags), timeout=timeout)
     if rc != 0 or to:
         return False, out, [], " ".join(cmd)
